@@ -249,6 +249,15 @@ def main():
                 m.__path__ = [q["root"] + "/" + "/".join(parts[:i])]
                 sys.modules[name] = m
     fds = {fp.name: fp for fp in req.proto_file}
+    # selective generation: the library keeps a subset of the top-level types; what it keeps must work, and must be closed
+    # under field types (a kept message whose field type was pruned can never build its descriptor)
+    kept_only = bool(q.get("kept_only"))
+    kept_top, kept_msgs = set(), []
+    target_top = set()
+    for fp in req.proto_file:
+        if fp.name in req.file_to_generate:
+            pre = fp.package + "." if fp.package else ""
+            target_top |= {pre + x.name for x in list(fp.message_type) + list(fp.enum_type)}
     for f in q["files"]:
         rec = {"ok": True, "error": "", "enums": [], "msgs": []}
         out["modules"][f["module"]] = rec
@@ -265,8 +274,12 @@ def main():
                 ein = d.pool.FindEnumTypeByName(prefix + e.name)
                 ec = getattr(mod, e.name, None)
                 if ec is None:
-                    orc.fail("enum-values", prefix + e.name, "no such enum class in the generated module")
+                    if kept_only:
+                        orc.stats["pruned"] = orc.stats.get("pruned", 0) + 1
+                    else:
+                        orc.fail("enum-values", prefix + e.name, "no such enum class in the generated module")
                     continue
+                kept_top.add(prefix + e.name)
                 ed = ec._meta.pb
                 if ed is None:
                     orc.fail("class-unusable", prefix + e.name, "the enum class has no descriptor (the module's file descriptor was never built)")
@@ -280,8 +293,13 @@ def main():
                 din = d.pool.FindMessageTypeByName(prefix + m.name)
                 cls = getattr(mod, m.name, None)
                 if cls is None:
-                    orc.fail("nesting", prefix + m.name, "no such message class in the generated module")
+                    if kept_only:
+                        orc.stats["pruned"] = orc.stats.get("pruned", 0) + 1
+                    else:
+                        orc.fail("nesting", prefix + m.name, "no such message class in the generated module")
                     continue
+                kept_top.add(prefix + m.name)
+                kept_msgs.append(din)
                 try:
                     dout = cls.pb(cls()).DESCRIPTOR
                 except BaseException as e:  # noqa
@@ -325,6 +343,30 @@ def main():
                         orc.fail("roundtrip", where, f"{type(e).__name__}: {e}"[:400], **case)
         except BaseException as e:  # noqa
             orc.fail("harness", f["module"], f"{type(e).__name__}: {e}\n{traceback.format_exc()[-600:]}")
+    if kept_only:
+        def top_of(t):
+            while t.containing_type is not None:
+                t = t.containing_type
+            return t.full_name
+
+        def walk(dm):
+            for fld in dm.fields:
+                t = fld.message_type or fld.enum_type
+                if t is not None and fld.message_type is not None and t.GetOptions().map_entry:
+                    v = t.fields_by_name["value"]
+                    t = v.message_type or v.enum_type
+                if t is not None and top_of(t) in target_top and top_of(t) not in kept_top:
+                    orc.fail("reference-closure", f"{dm.full_name}.{fld.name}",
+                             f"the library keeps {dm.full_name} but not {top_of(t)}, the type of its field {fld.name}")
+            for n in dm.nested_types:
+                if not n.GetOptions().map_entry:
+                    walk(n)
+        for dm in kept_msgs:
+            walk(dm)
+        for full in q.get("must_keep", []):
+            if full not in kept_top:
+                orc.fail("reference-closure", full, "request/response message of a selected rpc is not in the library")
+    out["kept"] = sorted(kept_top)
     out["failures"] = orc.failures
     out["stats"] = orc.stats
     print(json.dumps(out))
